@@ -127,13 +127,20 @@ def check_C11(tier, replay):
             for ch in (["random"] if (not q and m > 300 and m % 8 not in (0, 1, 7)) else ["zero", "one", "random"]):
                 jobs.append({"kind": "Ot", "id": f"ot.m{m}.{ch}", "m": m, "choices": ch, "seed": rng.randrange(1 << 30),
                              "both": (m % 2 == 0) or m < 20 or ch == "random"})
+        # "all correlation vectors": besides random blocks the all-zero vector, one block repeated (what the engine passes)
+        # and vectors with zero / all-ones / one-bit entries mixed in
+        for m in ([1, 2, 7, 8, 9, 40, 129, 1000, 1024] if q else [1, 2, 3, 4, 5, 7, 8, 9, 16, 40, 127, 128, 129, 500, 1000, 1024, 4096]):
+            for corr in ("zero", "const", "sparse"):
+                for ch in ("one", "random"):
+                    jobs.append({"kind": "Ot", "id": f"ot.m{m}.{ch}.{corr}", "m": m, "choices": ch, "corr": corr,
+                                 "seed": rng.randrange(1 << 30), "both": True})
     res = _judge(v, "C11", "Mon_C11", vlib.SPEC + "/MonReal.cfg", jobs, "pre", wd, lambda x: x["what"].split(":")[0],
                  weight=lambda j: j["m"] * (2 if j["both"] else 1), budget=150000)
     v.coverage = {
         "states": max(res["checked"], 1), "transitions": max(res["checked"], 1),
         "traces_validated_against_impl": res["checked"],
         "samples": [jobs[0], jobs[-1]],
-        "evaluations": len(jobs), "distinct_nontrivial": len({(j["m"], j["choices"], j["both"]) for j in jobs}),
+        "evaluations": len(jobs), "distinct_nontrivial": len({(j["m"], j["choices"], j["both"], j.get("corr", "random")) for j in jobs}),
         "indices_checked_by_tlc": res["indices"],
         "rule": "each evaluation = one real KOS/ALSZ/Chou-Orlandi session pair (sender then, for `both`, receiver on the same "
                 "channel and shared stream) of length m under the deterministic executor with 1-slot channels; TLC checks the "
